@@ -48,10 +48,10 @@ def main(chk):
     cnt = jnp.full((3, 2), 10, jnp.int32) if cfg['cax'] == 8 else stack([jnp.full((3, 2), 10, jnp.int32) for _ in range(n)], cfg['cax'])
     return M(w, cnt)
 
-  def replay_loop(case, mode):
+  def replay_loop(case, mode, form=0):
     cfg = case['cfg']
     n = cfg['n']
-    key = f"C08:{mode}:n={n}:rev={cfg['rev']}:w@{cfg['wax']}:cnt@{cfg['cax']}:in={cfg['xax']}:out={cfg['yax']}"
+    key = f"C08:{mode}:n={n}:rev={cfg['rev']}:w@{cfg['wax']}:cnt@{cfg['cax']}:in={cfg['xax']}:out={cfg['yax']}" + (':factory-form' if form else '')
     m = mk(cfg, n)
     w_before = np.asarray(m.w.value).copy()
     w_obj, c_obj = m.w, m.cnt
@@ -59,11 +59,14 @@ def main(chk):
     sa = nnx.StateAxes({nnx.Param: ax(cfg['wax']), Count: ax(cfg['cax'])})
     c0 = jnp.asarray(1, jnp.int32)
     try:
+      # form 1: the decorator-factory spelling, nnx.vmap(in_axes=...)(f) / nnx.scan(..., reverse=...)(f)
       if mode == 'vmap':
-        cs, ys = nnx.vmap(body, in_axes=(sa, None, cfg['xax']), out_axes=(0, cfg['yax']))(m, c0, xs)
+        kw = dict(in_axes=(sa, None, cfg['xax']), out_axes=(0, cfg['yax']))
+        cs, ys = (nnx.vmap(**kw)(body) if form else nnx.vmap(body, **kw))(m, c0, xs)
         carry = 0
       else:
-        carry, ys = nnx.scan(body, in_axes=(sa, nnx.Carry, cfg['xax']), out_axes=(nnx.Carry, cfg['yax']), reverse=cfg['rev'])(m, c0, xs)
+        kw = dict(in_axes=(sa, nnx.Carry, cfg['xax']), out_axes=(nnx.Carry, cfg['yax']), reverse=cfg['rev'])
+        carry, ys = (nnx.scan(**kw)(body) if form else nnx.scan(body, **kw))(m, c0, xs)
         carry = int(carry)
     except Exception as e:
       return key, f'raised {type(e).__name__}: {str(e)[:200]}'
@@ -174,6 +177,28 @@ def main(chk):
       got = False
     except Exception as e:
       return key, f'raised {type(e).__name__}: {str(e)[:160]} (specification: {"accepted" if case["accepted"] else "ValueError"})'
+    if got == case['accepted']:
+      # the same aliasing inside ONE argument: one Variable under two attribute paths whose path filters give s1 / s2
+      class Two(nnx.Module):
+        def __init__(self, v):
+          self.x = v
+          self.y = v
+      two = Two(nnx.Param(jnp.stack([jnp.array([1, 10], jnp.int32), jnp.array([2, 20], jnp.int32)], axis=0)))
+      sa = nnx.StateAxes({nnx.PathContains('x'): ax(cfg['s1']), nnx.PathContains('y'): ax(cfg['s2'])})
+      try:
+        if cfg['tr'] == 'vmap':
+          nnx.vmap(lambda t, x: jnp.sum(t.x.value) + x[0], in_axes=(sa, 0), out_axes=0)(two, xs)
+        else:
+          nnx.scan(lambda c, t, x: (c, jnp.sum(t.x.value) + x[0]), in_axes=(nnx.Carry, sa, 0), out_axes=(nnx.Carry, 0))(jnp.asarray(0), two, xs)
+        got1 = True
+      except ValueError:
+        got1 = False
+      except Exception as e:
+        return key + ':one-argument', f'raised {type(e).__name__}: {str(e)[:160]}'
+      if got1 != case['accepted']:
+        return key + ':one-argument', (f'one Variable under two paths of the same argument with axis specifications {cfg["s1"]} / {cfg["s2"]} '
+                                       f'(9 = None) was {"accepted" if got1 else "rejected"}; specification: '
+                                       f'{"accepted" if case["accepted"] else "rejected (inconsistent aliasing)"}')
     if got != case['accepted']:
       return key, (f'the same Module passed twice with axis specifications {cfg["s1"]} / {cfg["s2"]} (9 = None) was '
                    f'{"accepted" if got else "rejected"}; specification: {"accepted as one object" if case["accepted"] else "rejected (inconsistent aliasing)"}')
@@ -209,6 +234,44 @@ def main(chk):
       return key, f'the returned carry holds {[int(m.v.value) for m in seq]}, the Python loop {case["final"]}'
     return None
 
+  # ---- wide containers: >= 11 integer-keyed siblings (paths mix int and str keys; the order of the flattened state matters)
+  class Wide(nnx.Module):
+    def __init__(self, n, k):
+      self.items = [nnx.Param(jnp.arange(n, dtype=jnp.float32) + 100.0 * i) for i in range(k)]
+      self.d = {'z': Count(jnp.zeros((n,), jnp.float32))}
+
+  def wide_body(m, x):
+    m.d['z'].value = m.d['z'].value + 1.0
+    return sum((i + 1) * p.value for i, p in enumerate(m.items)) + x
+
+  for k in (3, 12):
+    n = 3
+    ref_y = np.array([sum((i + 1) * (j + 100.0 * i) for i in range(k)) + 10.0 * j for j in range(n)], np.float32)
+    xs = jnp.arange(n, dtype=jnp.float32) * 10.0
+    for tr in ('vmap', 'scan', 'grad'):
+      chk.count(('wide', tr, k))
+      key = f'C08:wide-container:{tr}:k={k}'
+      m = Wide(n, k)
+      try:
+        if tr == 'vmap':
+          ys = nnx.vmap(wide_body, in_axes=(nnx.StateAxes({...: 0}), 0), out_axes=0)(m, xs)
+        elif tr == 'scan':
+          _, ys = nnx.scan(lambda c, mm, x: (c, wide_body(mm, x)), in_axes=(nnx.Carry, nnx.StateAxes({...: 0}), 0),
+                           out_axes=(nnx.Carry, 0))(jnp.asarray(0), m, xs)
+        else:
+          g = nnx.grad(lambda mm: jnp.sum(wide_body(mm, xs)))(m)
+          got = [float(np.asarray(g['items'][i].value)[0]) for i in range(k)]
+          if got != [float(i + 1) for i in range(k)]:
+            chk.violation(key, f'd loss / d items[i] = {got}, jax.grad of the functional form gives {[float(i + 1) for i in range(k)]}', {})
+          continue
+      except Exception as e:
+        chk.violation(key, f'raised {type(e).__name__}: {str(e)[:200]}', {})
+        continue
+      vals = [float(np.asarray(p.value)[1]) for p in m.items]
+      if not np.array_equal(np.asarray(ys), ref_y) or vals != [1 + 100.0 * i for i in range(k)] or np.asarray(m.d['z'].value).tolist() != [1.0] * n:
+        chk.violation(key, f'ys {np.asarray(ys).tolist()} (per-index reference {ref_y.tolist()}); items[i][1] afterwards {vals}; counter '
+                           f'{np.asarray(m.d["z"].value).tolist()}', {})
+
   total = 0
   for mode in ('vmap', 'scan', 'grad', 'alias', 'carry2'):
     res = tlc.require_ok(tlc.run('NnxLoop', f'NnxLoop_{mode}.cfg', workers=1, timeout=900), f'NnxLoop {mode}')
@@ -218,7 +281,7 @@ def main(chk):
       import random
       cases = random.Random(chk.seed + len(mode)).sample(cases, 140 if mode == 'scan' else 80)
     for case in cases:
-      r = replay_loop(case, mode) if mode in ('vmap', 'scan') else (replay_grad(case) if mode == 'grad' else
+      r = replay_loop(case, mode, total % 2) if mode in ('vmap', 'scan') else (replay_grad(case) if mode == 'grad' else
                                                                        (replay_carry2(case) if mode == 'carry2' else replay_alias(case)))
       total += 1
       chk.count((mode, str(case['cfg'])))
